@@ -558,5 +558,44 @@ class SerializerDo(FnContract):
         P.check(qn + "/ensures:guard-restored", st.working.fields['has'] == st.old_has)
 
 
+
+class RegistryDisable(FnContract):
+    """GlueUnSerializer.object is wrapped in registry.disable and is recursive (loaders call context.object for their parts): labels read
+    back from a record must be taken as they are, at every nesting depth - so the wrapper has to put back the flag it found"""
+    property_ids = ('C12', 'C02')
+    target = "glue/core/registry.py:disable.wrapper"
+    title = ("while the wrapped function runs label disambiguation is off; afterwards the flag is what it was before the call (so an inner, re-entrant "
+             "call does not switch disambiguation back on for the rest of the outer one), on return and on exceptions alike; result and arguments pass through")
+
+    def configs(self, tier):
+        return [dict(raises=False), dict(raises=True)]
+
+    def inputs(self, cfg, P):
+        was = z3.Bool('disambiguation_was_disabled')
+        reg = PObj('Registry', fields={'_disable': was})
+        st = St(reg=reg, was=was, seen=[], calls=[], result=PObj('result'))
+        return Inputs([PObj('arg')], {'k': PObj('kwarg')}, st=st)
+
+    def globals_(self, cfg, st):
+        def func(I, *a, **k):
+            st.calls.append((a, k))
+            st.seen.append(st.reg.fields['_disable'])
+            if cfg['raises']:
+                raise PyRaise(ExcVal('GlueSerializeError', ('loader failed',)))
+            return st.result
+        return {'Registry': Builtin('Registry', lambda I: st.reg), 'func': Builtin('func', func)}
+
+    raises = {'GlueSerializeError': lambda cfg, st: cfg['raises']}
+
+    def finish(self, cfg, st, P, outcome):
+        qn = "registry.disable.wrapper[%s]" % self.cfg_name(cfg)
+        P.check(qn + "/ensures:wrapped-function-called-once-with-the-arguments", len(st.calls) == 1 and len(st.calls[0][0]) == 1 and set(st.calls[0][1]) == {'k'})
+        P.check(qn + "/ensures:disambiguation-off-while-the-function-runs", len(st.seen) == 1 and st.seen[0] is True)
+        now = st.reg.fields['_disable']
+        P.check(qn + "/ensures:flag-restored-to-its-previous-value", (now == st.was) if is_z3(now) else S.Iff(st.was, now))
+        if outcome[0] == 'return':
+            P.check(qn + "/ensures:result-passed-through", outcome[1] is st.result)
+
+
 CONTRACTS = [VDSetItem(), VDGetItem(), VDGetVersion(), VDContains(), VDDelItem(), LookupPatched(),
-             SaverDispatch(), LoaderDispatch(), SerializerDo()]
+             SaverDispatch(), LoaderDispatch(), SerializerDo(), RegistryDisable()]
